@@ -322,6 +322,8 @@ def run_case(case, ctx):
     sig = ("track", tuple(tuple(p) for p in pts), tuple(ms), order)
 
     tr = gen.make_track([tuple(p) for p in pts], ms)
+    if (n + int(ms[-1] // 100)) % 4 == 3:
+        tr, _how = gen.derive(tr, (pts, ms))
     before = _snapshot(tr)
     P = list(zip(before["x"], before["y"]))
     if [gen.ms_from_fields(*f) for f in before["t"]] != list(ms):
